@@ -38,6 +38,12 @@ def estimators_native(vc):
     c = np.asarray(E.cdf(xs))
     ci = np.array([np.trapezoid(pg[grid <= v], grid[grid <= v]) for v in xs])
     vc.ensures("cdf_is_integral_of_density", bool(np.all(np.abs(c - ci) < 5e-3)))
+    # ... for evaluation points given in any order, and one at a time
+    perm = rng.permutation(xs.size)
+    cp = np.asarray(E.cdf(xs[perm]))
+    c1 = np.array([float(E.cdf(float(v))) for v in xs[:3]])
+    vc.ensures("cdf_independent_of_the_order_of_the_points", bool(np.allclose(cp, c[perm], rtol=0, atol=1e-6))
+               and bool(np.allclose(c1, c[:3], rtol=0, atol=1e-6)))
     # (the KDE's bounded search may stop on a secondary bump of a wiggly estimate -- recorded finding -- but what it
     # returns must at least be a maximum of the density in its own neighbourhood)
     wloc = 0.25 * E.h if est == "kde" else 0.05 * E.MAP[1]
